@@ -303,13 +303,27 @@ def one_program(col, pid, rng, feats, depth, pidx, reps=3, clauses=True, flavour
         sites = {}
         renv = build_ref(prog, plain, sites=sites)
         probes.reset_counts()
-        ref = probes.run_ref(lambda: renv[prog["name"]](*args))
-        rcounts = Counter(probes.State.ref_counts)
-        res, log = run_twz(d, args, cfg)
+        failing = None
+        if rep == reps - 1 and rng.random() < feats.get("fail_fn", 0.3):
+            failing = rng.choice(sorted(all_fns(prog)))  # this decorated function raises whenever it is called, on both sides
+            probes.State.fail_fns = {failing}
+        try:
+            ref = probes.run_ref(lambda: renv[prog["name"]](*args))
+            rcounts = Counter(probes.State.ref_counts)
+            res, log = run_twz(d, args, cfg)
+        finally:
+            probes.State.fail_fns = set()
         probes.State.ref_counts = rcounts
         col.evaluations += 1
-        rp2 = dict(rp, args=jsonable(args), rep=rep)
+        rp2 = dict(rp, args=jsonable(args), rep=rep, failing_function=failing)
         col.generic(log, rp2)
+        if failing is not None and ref[0] == "exc" and isinstance(ref[1], probes.Injected):
+            # the plain function raises because a decorated function raised: so must the DAG call, whatever the resource
+            col.counters["plain_python_raises_cases"] += 1
+            if res[0] == "ok" and (only is None or "tawazi_returned_but_plain_python_raises" in only):
+                col.violation(pid, "tawazi_returned_but_plain_python_raises", dict(
+                    failing_function=failing, value=short(res[1], 300), args=short(args), source="\n".join(G.all_sources(prog))), rp2)
+            continue
         bad = compare(col, pid, prog, cfg, args, sites, ref, res, log, rp2, clauses, only=only)
         if ref[0] == "ok" and nsites >= 2:
             order = tuple((e["kind"][1], e["node"]) for e in log if e["kind"] in ("FENTER", "FEXIT"))
